@@ -48,17 +48,17 @@ RULE_TEXT = {
 }
 
 PROPS = {
-    "C01": ["TS-1", "TS-2", "GATE-1", "GATE-4", "GATE-6", "GATE-7", "GATE-8", "GATE-10", "SYM-1", "SYM-2", "SYM-3", "SYM-5"],
+    "C01": ["TS-1", "TS-2", "GATE-1", "GATE-4", "GATE-6", "GATE-7", "GATE-8", "GATE-10", "ITER-1", "SYM-1", "SYM-2", "SYM-3", "SYM-5"],
     "C02": ["TS-1", "TS-3", "TS-4", "GATE-1", "GATE-10", "EFF-2", "UNW-1", "PROV-1", "SYM-3", "TS-6", "TS-9", "GUARD-1"],
     "C03": ["GATE-5", "GATE-6", "GATE-8", "GATE-9", "GATE-10", "ITER-1", "EFF-4", "PROV-1", "TS-5", "SYM-1", "SYM-2", "SYM-3"],
     "C04": ["TS-3", "TS-4", "TS-5", "SYM-4", "API-1", "GIVE-1"],
     "C05": ["TS-2", "TS-3", "TS-4", "TS-7", "TS-8", "TS-9", "GATE-5", "EFF-2", "API-1"],
-    "C06": ["EFF-2", "EFF-3", "EFF-4", "TS-8", "TS-9", "PROV-1", "GATE-4", "GATE-6", "API-1"],
+    "C06": ["EFF-2", "EFF-3", "EFF-4", "TS-8", "TS-9", "PROV-1", "GATE-4", "GATE-6", "GATE-7", "ITER-1", "API-1"],
     "C07": ["FWD-1", "API-1", "TS-6", "TS-7", "TS-8", "TS-9", "GATE-3"],
     "C08": ["SYM-1", "SYM-2", "SYM-3", "SYM-4", "SYM-5", "EFF-4", "KEY-1"],
     "C09": ["ITER-1", "ITER-2", "ITER-3", "ITER-4", "TS-2", "KEY-1"],
     "C10": ["BRW-1", "BRW-2", "BRW-3", "TS-2", "TS-3", "SYM-3"],
-    "C11": ["UNW-1", "TS-2", "TS-6", "BRW-1", "GUARD-1"],
+    "C11": ["UNW-1", "TS-2", "TS-6", "BRW-1", "GUARD-1", "SYM-3"],
     "C12": ["KILL-1", "EFF-2", "TS-1", "TS-9", "SYM-3"],
     "C14": ["GATE-2", "GATE-3", "SYM-2", "SYM-4"],
     "C15": ["CG-1", "GATE-1", "GATE-9", "ITER-5"],
